@@ -99,6 +99,7 @@ def run(tier, seed):
         elif kind == "f64":
             isnan = (int(arg, 16) & 0x7ff0000000000000) == 0x7ff0000000000000 and (int(arg, 16) & 0xfffffffffffff) != 0
             want = "ok %s 8" % ("xnan" if isnan else "x" + arg)
+            add("f64 decbits %s" % hexs(eb + trailer), "ok b%s 8" % bytes.fromhex(arg)[::-1].hex())          # every bit pattern, NaN payloads and signs included
         else:
             v = core.h2f(arg); r = (v + 1.0) - 1.0
             want = "ok %s %d" % ("xnan" if r != r else "x" + core.f2h(r), len(eb))
